@@ -824,6 +824,9 @@ type ConcAlt struct {
 	// ElemTag (in ConcCfg): see there
 	// Lists: what a slice value holds after the instruction, element by element (ConcState.ListOf)
 	Lists map[ssa.Value][]ssa.Value
+	// Alias: what a register stands for on this alternative (the entry of a table looked up with a key that is not
+	// evident: one alternative per entry)
+	Alias map[ssa.Value]ssa.Value
 }
 
 // FieldVal: field Field of the struct that Obj denotes holds Val.
@@ -1963,6 +1966,11 @@ func ConcPaths(fn *ssa.Function, cfg ConcCfg) (seqs []string, truncated bool) {
 							}
 							ns.slices[v] = f
 						}
+						for v, to := range a.Alias {
+							ns.alias[v] = to
+							delete(ns.ints, v)
+							delete(ns.nils, v)
+						}
 						for v, l := range a.Lists {
 							if ns.lists == nil {
 								ns.lists = map[ssa.Value][]ssa.Value{}
@@ -2806,4 +2814,68 @@ func (st *ConcState) FieldFrom(obj ssa.Value, field string) string {
 		return ""
 	}
 	return st.fieldDesc(obj, field)
+}
+
+// StringMapEntries: the entries of a package-level map with constant string keys that the package initialiser builds
+// and nothing else writes (m is the map operand of a lookup: a load of the global).
+func StringMapEntries(m ssa.Value) (map[string]ssa.Value, bool) {
+	ld, ok := m.(*ssa.UnOp)
+	if !ok || ld.Op != token.MUL {
+		return nil, false
+	}
+	g, ok := ld.X.(*ssa.Global)
+	if !ok || g.Pkg == nil || curProg == nil {
+		return nil, false
+	}
+	ini := g.Pkg.Func("init")
+	if ini == nil {
+		return nil, false
+	}
+	var mk ssa.Value
+	nStore := 0
+	bad := false
+	curProg.EachRootFunc(func(f *ssa.Function) {
+		AllInstrs(f, func(in ssa.Instruction) {
+			switch x := in.(type) {
+			case *ssa.Store:
+				if x.Addr == ssa.Value(g) {
+					nStore++
+					if f == ini {
+						mk = x.Val
+					} else {
+						bad = true
+					}
+				}
+			case *ssa.MapUpdate:
+				if u, isU := x.Map.(*ssa.UnOp); isU && u.X == ssa.Value(g) {
+					bad = true // written through the global after initialisation
+				}
+			}
+		})
+	})
+	AllInstrs(ini, func(in ssa.Instruction) {
+		if x, isSt := in.(*ssa.Store); isSt && x.Addr == ssa.Value(g) {
+			nStore++
+			mk = x.Val
+		}
+	})
+	if bad || mk == nil || nStore < 1 {
+		return nil, false
+	}
+	if _, isMk := mk.(*ssa.MakeMap); !isMk {
+		return nil, false
+	}
+	out := map[string]ssa.Value{}
+	okAll := true
+	AllInstrs(ini, func(in ssa.Instruction) {
+		if mu, isMu := in.(*ssa.MapUpdate); isMu && mu.Map == mk {
+			k, isS := ConstString(mu.Key)
+			if !isS {
+				okAll = false
+				return
+			}
+			out[k] = mu.Value
+		}
+	})
+	return out, okAll && len(out) > 0
 }
